@@ -24,7 +24,10 @@ and the toc and the recursion over sub-pages range over the same list.
 TOC-REL - a toc entry is the last two titles (page of a section lies one
 directory below its parent's page). FIG-NAME - the image directive and the
 writer use the same directory and the same file-name template of the same
-fingerprint key. SANITIZE / SAN-BODY (shared with C19) - the report root
+fingerprint key; the file name of a page is sanitize_filename(title) with no
+other rewriting of the title. REPORT-OWNS - FormattedRst copies the
+dictionaries it is given (the Rst object clears its own in place).
+SANITIZE / SAN-BODY (shared with C19) - the report root
 directory is derived from the sanitized task name and the sanitizer is
 identity-or-raise.
 Not decided: page content, validity of the toctree for Sphinx, figure
@@ -42,6 +45,7 @@ def check(ctx):
     ctx.run(reportfs.check_dup_key)
     ctx.run(reportfs.check_page_flow)
     ctx.run(reportfs.check_fig_name)
+    ctx.run(reportfs.check_report_owns)
     ctx.run(extcmd.check_sanitize, scope=('report-root',), floor=1)
     ctx.run(extcmd.check_sanitizer_body)
 
@@ -167,6 +171,42 @@ def variants(program):
             'sanitize_filename', lambda n: n.args[0])
     add('report-directory-raw-name', 'mutant', raw_report_root,
         {'SANITIZE'})
+
+    def titles_stripped(tree):
+        fun = find_func(tree, 'FormattedRst.tree_to_path')
+        return replace_first(
+            fun, lambda n: isinstance(n, ast.Call) and txt(n) ==
+            'sanitize_filename(node)',
+            lambda n: parse_expr('sanitize_filename(node.strip())'))
+    add('page-names-are-trimmed-titles', 'mutant', titles_stripped,
+        {'PAGE-FLOW'}, note="seeded C20-1: 'Case 1' and 'Case 1 ' share a "
+        "page, 'index ' overwrites the root page, ' .. ' is rejected after "
+        "files were written - the guards look at the raw titles")
+
+    def dicts_by_reference(tree):
+        fun = find_func(tree, 'FormattedRst.__init__')
+        ok = False
+        for node in ast.walk(fun):
+            if isinstance(node, ast.Assign) and isinstance(
+                    node.value, ast.Call) and call_name(node.value) == \
+                    'copy' and txt(node.targets[0]) in (
+                        'self.tree_dict', 'self.text_dict', 'self.plots'):
+                node.value = node.value.func.value
+                ok = True
+        return ok
+    add('formatted-report-aliases-the-formatter-state', 'mutant',
+        dicts_by_reference, {'REPORT-OWNS'},
+        note='seeded C20-2: format_report(A); format_report(B); '
+             'A.write() writes the pages of B')
+
+    def subtrees_get(tree):
+        fun = find_func(tree, 'FormattedRst._write_rec')
+        return replace_first(
+            fun, lambda n: isinstance(n, ast.Subscript) and txt(n) ==
+            'self.tree_dict[tree]',
+            lambda n: parse_expr('self.tree_dict.get(tree, [])'))
+    add('twin-subtrees-with-get', 'twin', subtrees_get,
+        note='a false alarm of an earlier version of PAGE-FLOW')
 
     # ---- twins
     def inline_validation(tree):
